@@ -58,6 +58,37 @@ CHECKS.update({
             'catalogue observed and judged by TLC (CatalogueTrace). Exhaustive: the space is finite.',
             'TLC check of the SI table + exhaustive trace validation of the predefined catalogue', '7 C20'),
 })
+CHECKS.update({
+    'C08': ('Money.tla/MoneyTrace.tla: no-mix rules for every operator, ISO 4217 table read by an independent XML parser '
+            '(167 entries: name, smallest fraction, idempotent registration, rounding), user currencies with valid / '
+            'invalid parameters, construction rounded once to arbitrary smallest fractions (relational rounding on big '
+            'naturals, BigLaws model-checked against Rat).',
+            'TLC model checking of Big/Rat rounding laws + exhaustive trace validation of the ISO table and currency pairs', '7 C08'),
+    'C09': ('Money.tla: ValidRateRepr (power-of-ten multiple, term amount >= 0.1 with six decimals, |t - true*mult| <= '
+            '0.5e-6) stated multiplicatively on big naturals; construction from all input kinds, inversion, products and '
+            'quotients in every shared-currency pattern, rejections - judged by TLC.',
+            'TLC trace validation of exchange-rate construction and algebra against the relational spec (big naturals)', '7 C09'),
+    'C10': ('Money.tla TimesOK/OverOK: money x rate and money / rate = exact product with the STORED rate rounded exactly '
+            'once (IsRounded, all 8 modes) to the target currency\'s ISO minor units; mismatches rejected; judged by TLC.',
+            'TLC trace validation of rate application against the relational spec (big naturals)', '7 C10'),
+    'C11': ('RateTable.tla: kind of validity, entries, default date; obs = all 63 lookups as a function of the state; '
+            'PeriodIsolation, Reciprocal, RejectedUpdateNoChange model-checked; every transition of the state graph (all '
+            'histories of updates in every spelling, invalid ones included) executed on a real MoneyConverter and all '
+            'lookups + converter calls compared.',
+            'TLC model checking of RateTable.tla + execution of every state-graph transition in the real library', '7 C11'),
+    'C12': ('ConvStack.tla: money converter stack with real with-blocks (normal / exceptional leave), generic converter '
+            'list; TopWins, PopOnly, RejectedChangesNothing model-checked; every transition executed, registered '
+            'converters and probe conversions compared after each step, histories continued below merged states.',
+            'TLC model checking of ConvStack.tla + execution of every state-graph transition in the real library', '7 C12'),
+    'C14': ('Affine.tla: forward / exact-inverse table conversion on exact big rationals; reference temperature maps from '
+            'the defining fixed points; round trip / triangle / fixed points model-checked (AffineLaws); predefined '
+            'Temperature and user tables (all presence patterns, mapping/list/iterator form) observed and judged by TLC.',
+            'TLC model checking of affine laws + trace validation of table conversions', '7 C14'),
+    'C18': ('Text.tla: three-way classification (accept with exact value / reject / unspecified) of quantity strings as '
+            'character-code sequences, exact values on big naturals; construction from every numeric kind, str/format '
+            'round trip (the spec parses str(q) itself), parse with explicit unit, malformed strings judged by TLC.',
+            'TLC trace validation of construction and text forms against Text.tla (weaker: digit rendering via round trip)', '7 C18'),
+})
 NOT_YET = {}
 
 
